@@ -242,7 +242,7 @@ func oracleC12(v *View, vd *Verdict) {
 				if !connected || lastG2B < 0 || ka == 0 {
 					return
 				}
-				if now-lastG2B > ka*3/2+timingSlack {
+				if now-lastG2B > ka*3/2+slack(v) {
 					// did the client send anything the gateway has to relay (in the state it was in)?
 					// If so the gap means a relay went missing; if not, the gateway simply does not
 					// speak to the broker on the client's behalf.
